@@ -9,6 +9,7 @@ import (
 	"fmt"
 	"sort"
 	"strings"
+	"time"
 
 	"0chain.net/chaincore/block"
 	"0chain.net/chaincore/chain"
@@ -39,6 +40,37 @@ type input struct {
 	Hash    string     `json:"hash"`
 	K       int        `json:"k"`
 	Queries []int      `json:"queries"` // index into Specs (its key), or -1 for a node outside the pool
+	// Local: per-process state of the node objects this process holds for the given specs (what the status
+	// monitor and the network layer write: Status, LastActiveTime, error count, Info, Host/Port). The answers
+	// are computed on this view and again after resetting it; they must not differ.
+	Local []localState `json:"local,omitempty"`
+}
+
+type localState struct {
+	S        int   `json:"s"`
+	Inactive bool  `json:"inactive,omitempty"`
+	Errors   int64 `json:"errors,omitempty"`
+	Other    bool  `json:"other,omitempty"` // LastActiveTime, Info, Host, Port, Description
+}
+
+func applyLocal(n *node.Node, l localState, reset bool) {
+	if reset {
+		n.SetStatus(node.NodeStatusActive)
+		n.SetErrorCount(0)
+		n.SetLastActiveTime(time.Time{})
+		n.SetInfo(node.Info{})
+		n.Host, n.Port, n.Description = "", 0, ""
+		return
+	}
+	if l.Inactive {
+		n.SetStatus(node.NodeStatusInactive)
+	}
+	n.SetErrorCount(l.Errors)
+	if l.Other {
+		n.SetLastActiveTime(time.Unix(1700000000, 0))
+		n.SetInfo(node.Info{BuildTag: "verif", StateMissingNodes: 7})
+		n.Host, n.Port, n.Description = "10.1.2.3", 7171, "view"
+	}
 }
 
 func specKey(s nodeSpec) string {
@@ -244,6 +276,19 @@ func run(w *world, in input) outcome {
 		objs1[k] = p1.GetNode(k)
 	}
 
+	// this process' view of the sharders: per-process node state
+	for _, l := range in.Local {
+		if l.S >= 0 && l.S < len(in.Specs) {
+			if n := objs1[specKey(in.Specs[l.S])]; n != nil {
+				applyLocal(n, l, false)
+				out.kinds["node-with-process-local-state"]++
+				if l.Inactive {
+					out.kinds["node-locally-inactive"]++
+				}
+			}
+		}
+	}
+
 	// scores as the real scorer sees them
 	scorer := node.NewHashPoolScorer(encryption.NewXORHashScorer())
 	var scores []*node.Score
@@ -289,6 +334,24 @@ func run(w *world, in input) outcome {
 	}
 	foreign := mkNode(nodeSpec{PK: strings.Repeat("ee", 32), IDB: "id"})
 	ansForeign := w.ask(in.Hash, foreign)
+
+	// the same process after its local node state is reset (= another process' view of the same sharder set)
+	if len(in.Local) > 0 {
+		for _, l := range in.Local {
+			if l.S >= 0 && l.S < len(in.Specs) {
+				if n := objs1[specKey(in.Specs[l.S])]; n != nil {
+					applyLocal(n, l, true)
+				}
+			}
+		}
+		for _, k := range keys {
+			b := w.ask(in.Hash, objs1[k])
+			out.kinds["oracle-same-set-on-other-process-view"]++
+			if !eqBoolPtr(b.is, ans1[k].is) || !eqBoolPtr(b.with, ans1[k].with) || !eqStrs(b.nodes, ans1[k].nodes) {
+				setFail("set-depends-on-process-local-node-state")
+			}
+		}
+	}
 
 	// ---- oracle: the property statement on the implementation ----
 	var set1 []string
@@ -574,6 +637,13 @@ func gen(r *vh.Rand, malformed bool) input {
 			}
 		}
 	}
+	if r.Chance(1, 2) {
+		for i := range in.Specs {
+			if r.Chance(1, 3) {
+				in.Local = append(in.Local, localState{S: i, Inactive: r.Chance(2, 3), Errors: int64(r.Intn(3)), Other: r.Bool()})
+			}
+		}
+	}
 	for i := 0; i < 3 && len(in.Specs) > 0; i++ {
 		in.Queries = append(in.Queries, r.Intn(len(in.Specs)))
 	}
@@ -590,6 +660,7 @@ func key(in input) string {
 	for _, a := range in.Hist {
 		fmt.Fprintf(&b, "|%d,%d,%v", a.P, a.S, a.New)
 	}
+	fmt.Fprintf(&b, "|%v", in.Local)
 	return b.String()
 }
 
@@ -616,7 +687,7 @@ func main() {
 	o := vh.ParseFlags()
 	sc.Init()
 	rep := vh.NewReport("replicate", "C42", o)
-	rep.Rule = "sharder pools of 0-30 nodes built by real Pool.AddNode histories (half: every node once in a shuffled order; half: histories over two pools with re-adds of existing keys by the same or a new object and node objects shared by both pools, so SetIndex fields are stale), each compared with fresh pools over the same key set in three insertion orders and with a clone; ids set as NewNode does / never set " +
+	rep.Rule = "sharder pools of 0-30 nodes built by real Pool.AddNode histories (half: every node once in a shuffled order; half: histories over two pools with re-adds of existing keys by the same or a new object and node objects shared by both pools, so SetIndex fields are stale), each compared with fresh pools over the same key set in three insertion orders and with a clone; in half of the inputs a third of the node objects carry per-process state (Status inactive, error count, LastActiveTime, Info, Host/Port) and every answer is computed on that view and again after resetting it; ids set as NewNode does / never set " +
 		"(magic-block decode path) / mixed / crafted 1-byte ids (dense ties); hashes random, a few bits from a node id, all-zero, all-one; k in {-1,0,1,2,3,n/2,n-1,n,n+1,n+5}; " +
 		"malformed stream: non-hex, short (panic), empty, long hashes, repeated public key, extreme k; exhaustive: all multisets of <=4 one-byte ids x k=0..5; " +
 		"non-trivial = valid hash, 1 <= k < n and a proper subset of the sharders chosen; distinct by node list, hash and k"
